@@ -8,7 +8,7 @@ import (
 
 type c08Key string
 
-//verif:entry property=C08 tier=both bounds="n<=N handlers each sync/async x plain/context-aware; cancellation point in {never, before the call, by handler k}; every subset of the four publish hooks" cover="cancelled-before,cancelled-by-handler,never-cancelled" N_quick=2 N_thorough=3
+//verif:entry property=C08 tier=both bounds="n<=N handlers each sync/async x plain/context-aware; cancellation point in {never, before the call, by handler k (which may then panic)}; every subset of the four publish hooks" cover="cancelled-before,cancelled-by-handler,never-cancelled" N_quick=2 N_thorough=3
 func harnessC08Hooks() {
 	N := vParam("N", 2)
 	var mu sync.Mutex
@@ -59,6 +59,7 @@ func harnessC08Hooks() {
 
 	n := vInt(0, N)
 	cancelAt := vInt(-2, n-1) // -2 never, -1 before the call, k>=0: handler k cancels
+	panicAfterCancel := vBool() // the cancelling handler also panics afterwards
 	async := make([]bool, n)
 	ctxAware := make([]bool, n)
 	ctxOK := true
@@ -99,6 +100,9 @@ func harnessC08Hooks() {
 				}
 			}
 			rec(200 + i)
+			if i == cancelAt && panicAfterCancel {
+				panic("cancelled and gave up")
+			}
 		}
 		if ctxAware[i] {
 			SubscribeContext(bus, func(hc context.Context, e evA) { body(hc) }, so...)
